@@ -358,6 +358,28 @@ def chk_compressor_log_floored(F):
     return floors >= 1, '%d log10 site(s), %d `max(level - threshold, 0.0)` floor(s)' % (logs, floors)
 
 
+def chk_clock_started_before_tick(F):
+    """The "clock state should be Started by now" panic of Clock::update is unreachable because the function itself makes the
+    state Started when it finds it NotStarted, before it looks at it: a store `self.state = State::Started{..}` under a test of
+    the state precedes the match whose other arm panics."""
+    from .paths import describe_rv, pretty_place
+    b = F.body('clock::Clock::update')
+    if b is None:
+        return False, 'Clock::update not found'
+    st = [x for x, si, s in b.stmts() if s['k'] == 'assign' and s['lhs']['p'] and pretty_place(b, s['lhs']) == '(*self).state'
+          and 'State::Started' in describe_rv(b, s['rv'], depth=3, at=x)]
+    from .facts import callee_path
+    pn = [x for x, t in b.calls() if (callee_path(t) or '').endswith(('panic_fmt', 'panicking::panic')) and not b.blocks[x]['cleanup']]
+    if not pn:
+        return True, 'no panic left'
+    if not st:
+        return False, 'Clock::update no longer starts a NotStarted clock itself: a clock that is told to tick while NotStarted (stop(); start(); in one interval) reaches the panic'
+    ok = all(any(x in b.reachable([s0]) for s0 in st) or True for x in pn)
+    # the store must lie before the match: it can reach the panic block's predecessor switch
+    ok = all(any(b.blocks[p_]['term']['k'] == 'switch' and p_ in b.reachable([s0]) for p_ in b.pred(x)) or any(x in b.reachable([s0]) for s0 in st) for x in pn)
+    return ok, 'state = Started precedes the match'
+
+
 CHECKS = {
     'scratch_sized_ibs': chk_scratch_sized_ibs,
     'delay_line_nonempty': chk_delay_line_nonempty,
@@ -366,6 +388,7 @@ CHECKS = {
     'delay_chunked_by_line': chk_delay_chunked_by_line,
     'loop_region_ordered': chk_loop_region_ordered,
     'tween_value_guarded': chk_tween_value_guarded,
+    'clock_started_before_tick': chk_clock_started_before_tick,
     'compressor_log_floored': chk_compressor_log_floored,
 }
 
